@@ -194,6 +194,9 @@ def check_helper(c):
     discs = []
     idn = dict(c["identity"])
     rack = {c["slot"]: dict(c["module"])}
+    variant = c.get("variant", "logix-bare")
+    if variant == "cip-bare":
+        return check_helper_cip(c)
     tgt = RefPLC(MINI_PROJECT, {"/t": b"\x00" * 4}, {"identity": idn, "plc_name": c["plc_name"], "rack": rack, "expected_route": b"\x01\x00",
                                                      "wall_clock": c["clock0"]})
     import os
@@ -203,7 +206,8 @@ def check_helper(c):
     _time.tzset()
     harness.install(tgt)
     try:
-        plc = LogixDriver("10.0.0.9", init_tags=False)
+        # the controller in slot 0 of the local chassis, spelled in every way the path grammar has for it
+        plc = LogixDriver({"logix-bare": "10.0.0.9", "logix-bp": "10.0.0.9/bp/0", "logix-backplane": "10.0.0.9/backplane/0", "logix-1": "10.0.0.9,1,0"}[variant], init_tags=False)
         plc.open()
 
         def ident_dict(i):
@@ -242,8 +246,16 @@ def check_helper(c):
         t1 = plc.get_plc_time()
         if not t1 or t1.value["microseconds"] != c["clock1"] or t1.value["datetime"] != EPOCH + datetime.timedelta(microseconds=c["clock1"]):
             discs.append(Disc("helper.time.roundtrip", f"wrote {c['clock1']}, read {t1!r}"[:300]))
+        mods = [e["ucsend"]["route"] for e in tgt.log if "ucsend" in e and e["ucsend"]["route"] != b"\x01\x00"]
+        if mods and set(mods) != {bytes([1, c["slot"]])}:
+            discs.append(Disc("helper.module_info.route", f"get_module_info({c['slot']}) on {variant} was routed along {sorted(set(m.hex() for m in mods))}, expected 01{c['slot']:02x}"))
+        # ... and the driver's own route is what it was: a new connection is opened along it
+        plc.close()
+        plc.open()
+        if plc.get_plc_name() != c["plc_name"]:
+            discs.append(Disc("helper.plc_name.reopened", f"{plc.get_plc_name()!r} != {c['plc_name']!r}"))
         for prop, code, detail in tgt.audits:
-            if prop in ("C14", "C09"):
+            if prop in ("C14", "C09", "C15"):
                 discs.append(Disc(f"audit.{code}", detail))
         plc.close()
     except PycommError as e:
@@ -260,6 +272,48 @@ def check_helper(c):
         else:
             os.environ["TZ"] = old_tz
         _time.tzset()
+    return discs
+
+
+def check_helper_cip(c):
+    """get_module_info on a plain CIPDriver addressed without a route (the usage the documentation shows): the module is reached along
+    backplane/slot, and the driver's own (empty) route is unchanged afterwards - a connection opened next goes to the device itself"""
+    from pycomm3 import CIPDriver
+    from pycomm3.exceptions import PycommError
+    from pycomm3.cip.status_info import VENDORS, PRODUCT_TYPES
+    discs = []
+    rack = {c["slot"]: dict(c["module"])}
+    tgt = RefPLC(MINI_PROJECT, {"/t": b"\x00" * 4}, {"identity": dict(c["identity"]), "plc_name": c["plc_name"], "rack": rack, "expected_route": b""})
+    harness.install(tgt)
+    try:
+        drv = CIPDriver("10.0.0.9")
+        drv.open()
+        i = dict(RefTarget({"identity": rack[c["slot"]]}).identity)
+        want = {"vendor": VENDORS.get(i["vendor"], "UNKNOWN"), "product_type": PRODUCT_TYPES.get(i["product_type"], "UNKNOWN"), "product_code": i["product_code"],
+                "revision": {"major": i["major"], "minor": i["minor"]}, "status": bytes(i["status"]), "serial": "%08x" % i["serial"], "product_name": i["product_name"]}
+        for attempt in (1, 2):
+            mi = drv.get_module_info(c["slot"])
+            if mi != want:
+                discs.append(Disc("helper.module_info.cip", f"call {attempt}, slot {c['slot']}: {mi!r}"[:500]))
+        routes = {e["ucsend"]["route"] for e in tgt.log if "ucsend" in e}
+        if routes != {bytes([1, c["slot"]])}:
+            discs.append(Disc("helper.module_info.route", f"get_module_info({c['slot']}) on a driver without a route was routed along {sorted(r.hex() for r in routes)}, expected 01{c['slot']:02x}"))
+        t = drv.generic_message(service=0x01, class_code=1, instance=1, connected=True)      # Get Attributes All of the device itself, over a new connection
+        if not t:
+            discs.append(Disc("helper.connected-after-module_info", f"connected message after get_module_info: {t!r}"[:300]))
+        for prop, code, detail in tgt.audits:
+            if prop in ("C14", "C09", "C15"):       # C15: the route a Forward Open carries
+                discs.append(Disc(f"audit.{code}", detail + " [after get_module_info on a driver without a route]"))
+        drv.close()
+    except PycommError as e:
+        discs.append(Disc(f"helper.cip.raises.{type(e).__name__}", f"{e!r} <- {e.__cause__!r}"[:500]))
+    except Exception as e:
+        from ..scenario import where
+        if where(e) == "harness":
+            raise
+        discs.append(Disc(f"helper.cip.foreign.{type(e).__name__}.{where(e)}", f"{e!r}"[:400]))
+    finally:
+        harness.uninstall()
     return discs
 
 
@@ -321,7 +375,8 @@ def helper_cases(draw):
     tmax = 253_402_300_799_000_000
     clock = st.one_of(st.integers(0, tmax), st.sampled_from([0, 1, 999_999, 1_000_000, 1_600_000_000_123_456, tmax]))
     return {"identity": ident(), "module": ident(), "slot": draw(st.one_of(st.integers(1, 16), st.integers(1, 255))), "plc_name": draw(st.text(alphabet="ABCxyz_019 ", max_size=20)),
-            "clock0": draw(clock), "clock1": draw(clock), "tz": draw(st.sampled_from(["UTC0", "UTC0", "EST5", "CET-1", "NPT-5:45", "AEST-10AEDT"]))}
+            "clock0": draw(clock), "clock1": draw(clock), "tz": draw(st.sampled_from(["UTC0", "UTC0", "EST5", "CET-1", "NPT-5:45", "AEST-10AEDT"])),
+            "variant": draw(st.sampled_from(["logix-bare", "logix-bare", "logix-bp", "logix-backplane", "logix-1", "cip-bare", "cip-bare"]))}
 
 
 def classes_of(c):
